@@ -31,7 +31,7 @@ def main():
             'evidence_file': '/verif/evidence/%s.json' % pid,
             'replay_cmd_template': 'bin/check %s --replay {path}' % pid,
             'engine': c.get('engine', 'vx'),
-            'level_claimed': {'category': 'proof', 'text': c['level_text'], 'design_ref': c.get('design_ref', 'DESIGN.md 4')},
+            'level_claimed': {'category': c.get('level', 'proof'), 'text': c['level_text'], 'design_ref': c.get('design_ref', 'DESIGN.md 4')},
             'level_note': c['level_note'],
             'technique': c['technique'],
         })
